@@ -223,6 +223,23 @@ class Translator:
             if c.func.attr == "prod":
                 return sp.Mul(*a.e)
             return sp.Add(*a.e) / len(a)
+        ext = None
+        if isinstance(c.func, ast.Attribute) and c.func.attr in ("max", "min") and not c.args and not (d or "").startswith("np."):
+            ext = self.ev(c.func.value)
+        elif d in ("np.max", "np.min", "np.amax", "np.amin") and len(args) == 1:
+            ext = args[0]
+        if ext is not None:
+            # an extremum of the coordinates used as a scale: the documented functions are smooth, so a correct formula cannot
+            # depend on its value, only (wrongly) on its sign.  It is replaced by a fixed positive number, and -- unless every
+            # element is an absolute value or an even power -- in a second pass by a fixed negative one (a `where`-like choice)
+            elems = ext.e if isinstance(ext, SymArr) else [ext]
+            nonneg = all(getattr(v_, "is_nonnegative", None) for v_ in elems)
+            if nonneg:
+                return sp.Rational(7, 3)
+            key = (c.lineno, c.col_offset)
+            if key not in self.where_sites:
+                self.where_sites.append(key)
+            return sp.Rational(7, 3) if self.choices.get(key, True) else -sp.Rational(11, 5)
         if d == "np.mean" and len(args) == 1 and isinstance(args[0], SymArr):
             return sp.Add(*args[0].e) / len(args[0])
         if d == "float" and len(args) == 1:
@@ -505,6 +522,14 @@ def rule_arrlike(ctx: Ctx) -> List[Ob]:
                 if isinstance(par, ast.Call) and x in par.args and (dotted(par.func) or "").startswith("np."):
                     continue
                 raw.append(x)
+        if n.name.endswith("_grad"):
+            # the gradient has the shape of x for every n, n = 1 included: nothing on the way to the return may drop axes
+            drops = [c for c in ast.walk(n) if isinstance(c, ast.Call) and (
+                (isinstance(c.func, ast.Attribute) and c.func.attr in ("squeeze", "item", "ravel", "flatten") and not (dotted(c.func) or "").startswith("np.")) or
+                dotted(c.func) in ("np.squeeze", "float", "np.ravel"))]
+            for c in drops:
+                obs.append(Ob("ARRLIKE", "the gradient keeps the shape of the point (no axis-dropping operation)", m.rel, c.lineno, f"benchmarks.{n.name}",
+                              short(c, 50), False, f"`{short(c, 50)}` removes length-one axes: for a point of dimension 1 the gradient has shape () instead of (1,)"))
         ok = not raw
         obs.append(Ob("ARRLIKE", "the point is converted to an array before it is used", m.rel, raw[0].lineno if raw else n.lineno,
                       f"benchmarks.{n.name}", n.name, ok,
